@@ -75,7 +75,18 @@ def run(repo, tier) -> Result:
     # resume scan: newest-first, stops at the first marked candle (NEW-ONLY)
     fci = repo.method("hexital.core.indicator", "Indicator", "_find_calc_index")
     n_err = len(res.errors)
-    check_resume("C07", res, fci, "self.candles", "membership")
+    sa = check_resume("C07", res, fci, "self.candles", "membership", repo=repo)
+    if sa is not None:
+        from ..driver import resume_rework_bounded
+        from ..resume import case_text
+
+        bad, asc = resume_rework_bounded(sa)
+        for c in bad:
+            res.fail("R-BOUND", finding("C07", "R-BOUND", fci, c.node, f"resume scan case {case_text(c)}: resumes more than one candle before the first candle without a reading: every append re-visits (and, for helpers, recomputes) a stretch of history", construct=f"resume rework {case_text(c)}"[:190]))
+        for lp in asc:
+            res.fail("R-BOUND", finding("C07", "R-BOUND", fci, lp, "the resume scan walks the list oldest-first: every append walks the whole history before it reaches the new candle"))
+        if not bad and not asc:
+            res.ok("R-BOUND", {"site": fci.where, "why": "newest-first scan; every case resumes at m or m-1 (constant re-work)"}, nontrivial="resume:bounded")
     if len(res.errors) > n_err:
         # unknown shape: for C07 an unrecognised scan over the list is itself the finding
         res.errors = res.errors[:n_err]
